@@ -32,9 +32,13 @@ type Resolution struct {
 	// NameAbsent / NameWrongType: by-name diagnosis.
 	NameAbsent    bool
 	NameWrongType bool
+	// Foreign: the point is typed any / []any and selects by type without a qualifier: every
+	// registered component is a candidate, the container's own components (which the model does
+	// not enumerate) included. Cands lists the program's components only.
+	Foreign bool
 }
 
-func (r *Resolution) Empty() bool { return len(r.Cands) == 0 }
+func (r *Resolution) Empty() bool { return len(r.Cands) == 0 && !r.Foreign }
 
 // World is a program plus derived lookup tables.
 type World struct {
@@ -188,6 +192,9 @@ func (w *World) Resolve(h *sdl.Instance, pt *sdl.Point) *Resolution {
 		}
 		cands = f
 	}
+	if pt.Sel == sdl.SelType && (pt.Kind == sdl.KAny || pt.Kind == sdl.KAnys) && len(pt.Quals) == 0 {
+		r.Foreign = true
+	}
 	withSelf := cands
 	var others []string
 	for _, id := range cands {
@@ -195,11 +202,24 @@ func (w *World) Resolve(h *sdl.Instance, pt *sdl.Point) *Resolution {
 			others = append(others, id)
 		}
 	}
-	if len(withSelf) != 0 && len(others) == 0 {
+	if len(withSelf) != 0 && len(others) == 0 && !r.Foreign {
 		r.SelfOnly = true
 	}
 	sort.Strings(others)
 	r.Cands = others
+	if r.Foreign && pt.Single() {
+		// the container's own components carry no Primary marker and no custom name: a unique
+		// Primary among the program's components wins, anything else is a tie that includes them
+		if exact, open := w.rank(others); exact != "" && w.Types[w.Insts[exact].Type].Primary {
+			r.Exact = exact
+		} else {
+			r.Tied, r.DontCare = true, open
+		}
+		if e, _ := w.rank(withSelf); e == h.ID && w.Types[h.Type].Primary {
+			r.DontCare = true
+		}
+		return r
+	}
 	if !pt.Single() || len(others) == 0 {
 		return r
 	}
